@@ -397,12 +397,13 @@ type argT struct {
 }
 
 type callT struct {
-	Script  *SE    `json:"-"`
-	JS      string `json:"js"`
-	Invalid bool   `json:"invalid_js,omitempty"`
-	Args    []argT `json:"args"`
-	Odd     bool   `json:"odd_arg,omitempty"`
-	Node    int    `json:"node"` // -1: javascript; >=0: javascript_with_context on that node
+	Script   *SE         `json:"script"`
+	JS       string      `json:"js"`
+	Invalid  bool        `json:"invalid_js,omitempty"`
+	Args     []argT      `json:"args"`
+	Odd      bool        `json:"odd_arg,omitempty"`
+	Node     int         `json:"node"`                // -1: javascript; >=0: javascript_with_context on that node
+	NodeKids [][2]string `json:"node_kids,omitempty"` // the node's children (name, text): enough to rebuild it
 	// filled while running
 	NodeID   int64  `json:"-"`
 	NodeJSON string `json:"node_json,omitempty"`
@@ -857,6 +858,9 @@ func runDirect(c *callT, nodes []*idr.Node) {
 	}()
 	if c.Node >= 0 {
 		n := nodes[c.Node]
+		if k, ok := nodeKids.Load(n); ok {
+			c.NodeKids = k.([][2]string)
+		}
 		c.NodeID = n.ID
 		c.NodeJSON = idr.JSONify2(n)
 		c.obsVal, c.obsErr = v21.JavaScriptWithContext(nil, n, c.JS, c.goArgs()...)
@@ -895,12 +899,23 @@ func judge(tbl *rtTable, c *callT) string {
 }
 
 func mkNode(r *vh.Rng, label int) *idr.Node {
-	root := idr.CreateNode(idr.ElementNode, fmt.Sprintf("n%d", label))
+	var kids [][2]string
 	for i, k := 0, r.Between(0, 3); i < k; i++ {
-		ch := idr.CreateNode(idr.ElementNode, r.PickStr("a", "b", "c", "dd"))
-		idr.AddChild(ch, idr.CreateNode(idr.TextNode, genStr(r)))
+		kids = append(kids, [2]string{r.PickStr("a", "b", "c", "dd"), genStr(r)})
+	}
+	return buildNode(kids)
+}
+
+var nodeKids sync.Map // *idr.Node -> [][2]string
+
+func buildNode(kids [][2]string) *idr.Node {
+	root := idr.CreateNode(idr.ElementNode, "n")
+	for _, kv := range kids {
+		ch := idr.CreateNode(idr.ElementNode, kv[0])
+		idr.AddChild(ch, idr.CreateNode(idr.TextNode, kv[1]))
 		idr.AddChild(root, ch)
 	}
+	nodeKids.Store(root, kids)
 	return root
 }
 
@@ -1364,6 +1379,11 @@ func main() {
 	sum.Extra["runtime_own_globals"] = len(tbl.Own)
 	sum.Extra["runtime_inherited_globals"] = len(tbl.Proto)
 
+	if o.Replay != "" {
+		replay(o, tbl)
+		sum.Write(o)
+		return
+	}
 	if o.Corpus != "" {
 		runCorpus(o.Corpus, tbl, sum)
 	}
@@ -1582,3 +1602,131 @@ func finish(r *vh.Rng, sum *vh.Summary, cw *vh.CaseWriter, it *intern, tbl *rtTa
 type gojaLike struct{}
 
 func (*gojaLike) Error() string { return "thrown" }
+
+// ---- replay -------------------------------------------------------------------------------------------------
+
+func fixJV(v *JV) {
+	if v == nil {
+		return
+	}
+	if v.K == "num" {
+		switch v.FS {
+		case "NaN":
+			v.F = math.NaN()
+		case "+Inf":
+			v.F = math.Inf(1)
+		case "-Inf":
+			v.F = math.Inf(-1)
+		default:
+			v.F, _ = strconv.ParseFloat(v.FS, 64)
+		}
+	}
+	for i := range v.Arr {
+		fixJV(&v.Arr[i])
+	}
+	for i := range v.Obj {
+		fixJV(&v.Obj[i].V)
+	}
+}
+
+func fixSE(e *SE) {
+	if e == nil {
+		return
+	}
+	fixJV(e.V)
+	fixSE(e.A)
+	fixSE(e.B)
+	for _, x := range e.Es {
+		fixSE(x)
+	}
+	for i := range e.Kvs {
+		fixSE(e.Kvs[i].E)
+	}
+}
+
+// replay re-runs the case of a replay file written by bin/check on the current tree and prints,
+// per call, what the implementation returns and what the script's own function of its inputs is.
+func replay(o *vh.Opts, tbl *rtTable) {
+	b, err := os.ReadFile(o.Replay)
+	if err != nil {
+		fmt.Println("replay:", err)
+		return
+	}
+	var f struct {
+		Oracle string `json:"oracle"`
+		Case   struct {
+			Kind   string          `json:"kind"`
+			Cache  string          `json:"cache"`
+			Calls  json.RawMessage `json:"calls"`
+			Schema string          `json:"schema"`
+			Input  string          `json:"input"`
+			Corpus string          `json:"corpus"`
+		} `json:"case"`
+	}
+	if err := json.Unmarshal(b, &f); err != nil {
+		fmt.Println("replay:", err)
+		return
+	}
+	fmt.Println("replaying:", f.Oracle)
+	cfg := cfgs[0]
+	for _, c := range cfgs {
+		if c.Name == f.Case.Cache {
+			cfg = c
+		}
+	}
+	var groups [][]*callT
+	var flat []*callT
+	if json.Unmarshal(f.Case.Calls, &flat) == nil && len(flat) > 0 {
+		groups = [][]*callT{flat}
+	} else if json.Unmarshal(f.Case.Calls, &groups) != nil {
+		fmt.Println("replay: this case has no call list (corpus cases are re-run on every check)")
+		return
+	}
+	applyCfg(cfg)
+	var wg sync.WaitGroup
+	for _, g := range groups {
+		for _, c := range g {
+			fixSE(c.Script)
+			for i := range c.Args {
+				fixJV(&c.Args[i].Val)
+			}
+		}
+		wg.Add(1)
+		run := func(g []*callT) {
+			defer wg.Done()
+			nodes := map[int]*idr.Node{}
+			for _, c := range g {
+				var ns []*idr.Node
+				if c.Node >= 0 {
+					if nodes[c.Node] == nil {
+						nodes[c.Node] = buildNode(c.NodeKids)
+					}
+					ns = make([]*idr.Node, c.Node+1)
+					ns[c.Node] = nodes[c.Node]
+				}
+				runDirect(c, ns)
+			}
+		}
+		if len(groups) > 1 {
+			go run(g)
+		} else {
+			run(g)
+		}
+	}
+	wg.Wait()
+	for gi, g := range groups {
+		for i, c := range g {
+			w := intended(tbl, c, c.NodeJSON)
+			want := "error (" + w.Reason + ")"
+			if !w.Err {
+				want = w.Val.js()
+			}
+			verdict := "ok"
+			if j := judge(tbl, c); j != "" {
+				verdict = "FAILS: " + j
+			}
+			fmt.Printf("[%d.%d] %s args=%v\n    implementation: %s\n    intended:       %s\n    %s\n", gi, i, c.JS, c.goArgs(), c.Observed, want, verdict)
+		}
+	}
+	v21.VerifSetDisableCaching(false)
+}
